@@ -96,12 +96,44 @@ def _stamp(k):
     return (2021, 3, 4, 5, 6, 10 + k)
 
 
-def _backup(env, k, full, quick, gz, killold):
+class _Tick:
+    """Clock for repozo that advances by one second at every reading (a backup reads it more than once)."""
+
+    def __init__(self):
+        import time
+        self._real = time
+        self.base, self.n = 0, 0
+
+    def gmtime(self, *a):
+        t = (2021, 3, 4, 5, 6, self.base + self.n, 0, 0, 0)
+        self.n += 1
+        return t
+
+    def __getattr__(self, name):
+        return getattr(self._real, name)
+
+
+def _backup(env, k, full, quick, gz, killold, tick=None):
     o = Opt()
     o.mode = RZ.BACKUP
     o.full, o.quick, o.gzip, o.killold = full, quick, gz, killold
-    o.test_now = _stamp(k)
-    RZ.do_backup(o)
+    if tick is None:
+        o.test_now = _stamp(k)
+        RZ.do_backup(o)
+        return
+    real = RZ.time
+    tick.base, tick.n = 10 + 4 * k, 0
+    RZ.time = tick
+    try:
+        # through the command line, as a user runs it
+        argv = ['-B', '-r', REPO, '-f', SRC] + (['-F'] if full else []) + (['-Q'] if quick else []) + (['-z'] if gz else []) + (['-k'] if killold else [])
+        try:
+            RZ.main(argv)
+        except SystemExit as ex:
+            if ex.code not in (0, None):
+                fail('repozo backup ended with a non-zero exit status', argv, ex.code)
+    finally:
+        RZ.time = real
 
 
 def _recover(env, date=None, withverify=False):
@@ -130,6 +162,7 @@ def h_program(s0: int, s1: int, s2: int, s3: int, full: bool, quick: bool, gz: b
         h.commit([(T.oid(1), b'first'), (T.oid(2), b'second')])
         snaps = []          # (stamp string, committed prefix at backup time, index expected)
         nb = 0
+        tick = _Tick()
 
         def backup(is_full, q, g, kill):
             nonlocal nb
@@ -143,11 +176,15 @@ def h_program(s0: int, s1: int, s2: int, s3: int, full: bool, quick: bool, gz: b
                 st._file.flush()
             try:
                 src = bytes(env.fs.content(SRC))
-                _backup(env, nb, is_full, q, g, kill)
+                had = set(env.fs.os.listdir(REPO))
+                _backup(env, nb, is_full, q, g, kill, tick=tick)
             finally:
                 if t is not None:
                     st.tpc_abort(t)
-            snaps.append(('%04d-%02d-%02d-%02d-%02d-%02d' % _stamp(nb), _committed_prefix(src), kill))
+            # the date of a backup is the one in the name of the file it wrote (the clock moves while it runs)
+            made = sorted(nm for nm in set(env.fs.os.listdir(REPO)) - had if not nm.endswith(('.dat', '.index')))
+            stamp = made[-1][:19] if made else '2021-03-04-05-06-%02d' % (10 + 4 * nb + 1)
+            snaps.append((stamp, _committed_prefix(src), kill))
             nb += 1
         backup(True, False, gz, False)                 # every repository starts with a full backup
         n = 0
@@ -170,7 +207,9 @@ def h_program(s0: int, s1: int, s2: int, s3: int, full: bool, quick: bool, gz: b
         newest = _recover(env)
         check(newest == snaps[-1][1], 'recovered file differs from the committed data file at the last backup',
               len(newest), len(snaps[-1][1]))
-        # the restored index is usable: opening with it equals opening without it
+        # every backup stores the index that belongs to it: recovery delivers one, and it is usable - opening with it
+        # equals opening without it
+        check(env.fs.exists('/db/Restored.fs.index'), 'recovery delivered no index file', sorted(env.fs.os.listdir(REPO)))
         if env.fs.exists('/db/Restored.fs.index'):
             a = F.FileStorage('/db/Restored.fs', read_only=True)
             ma = GR.model_from_storage(a)
